@@ -4,7 +4,8 @@
 // Oracle (oracle.go): a small automaton per live iterator. Snapshot candidates S0 (contents when
 // Iterate was called) and S1 (contents when Next was first called); the iterator has to stay
 // consistent with one of them. Before any mutating call: yields follow the snapshot, no panic.
-// After a call of ANY mutating method (even a no-op one): each Next may panic, or yield the next
+// After a call of ANY mutating method that returned normally (even a no-op one; a call that itself
+// panicked was refused, changed nothing and obliges nothing): each Next may panic, or yield the next
 // snapshot element (deque: positional; heap/queue: any not yet yielded element of the snapshot), or
 // report exhaustion only if the whole snapshot has been yielded. Once >= 1 Next has been made and
 // exhaustion has not been reported, an element actually added or removed obliges the very next Next
@@ -32,7 +33,8 @@ func main() {
 			"distinct = by (container, state class [deque: cap/layout/fill; heap, queue: size/constructor], position class first|mid|last, operation class).")
 		r.Assume("elements are distinct tokens (deque), distinct ids with tied priorities (heap), distinct keys (queue), so positional and multiset comparison against a snapshot is exact")
 		r.Assume("the containers answer their non-iterator calls like the ideal container (C04/C05 decide that); a divergence there ends the case as inconclusive instead of being judged")
-		r.Assume("lenient readings: the snapshot may be the contents at Iterate() or at the first Next; after a call of any mutating method, even a no-op one, any panic is acceptable; " +
+		r.Assume("lenient readings: the snapshot may be the contents at Iterate() or at the first Next; after a call of any mutating method that returned normally, even a no-op one, any panic is acceptable " +
+			"(a call that itself panicked - pop / Front / Back / Peek on empty, Set / Item out of range, Shrink(-1) - was refused, modified nothing, and leaves the iterator obliged to carry on); " +
 			"the must-panic clause is demanded only while >= 1 Next has been made and exhaustion has not yet been reported")
 
 		workers := runtime.GOMAXPROCS(0)
@@ -77,6 +79,10 @@ func main() {
 		r.Floor("yields checked against the snapshot after a mutating call", r.Table("obligations", "deque: yield after a mutating call checked against the snapshot")+
 			r.Table("obligations", "heap: yield after a mutating call checked against the snapshot")+
 			r.Table("obligations", "queue: yield after a mutating call checked against the snapshot"), 200)
+		for _, k := range []string{"deque", "heap", "queue"} {
+			r.Floor(k+": Next after a refused (panicking) call with nothing else modified", r.Table("next outcomes", k+": after-refused-call → yield")+r.Table("next outcomes", k+": after-refused-call → end"), 20)
+		}
+		r.Floor("deque: iteration carried on (yield) after an out-of-range Set or Item", r.Table("next outcomes", "deque: after-refused-call → yield"), 1000)
 		for _, k := range []string{"deque", "heap", "queue"} {
 			r.Floor(k+": counter rewind scenarios", r.Table("scenarios", k+" (counter rewind: drained to empty, resized while empty, refilled)"), 500)
 		}
